@@ -882,6 +882,13 @@ class XsdAssertionFacet(XsdFacet):
             self.parse_error(err)
             self.token = self.parser.parse('true()')
 
+    def __setstate__(self, state: dict[str, Any]) -> None:
+        super().__setstate__(state)
+        if hasattr(self, 'parser') and not hasattr(self.parser, 'source'):
+            # The state of the XPath parser doesn't include the source,
+            # that is needed to report the position of a dynamic error
+            self.parser.source = self.path
+
     def __call__(self, value: Any) -> None:
         context = XPathContext(self._root, variables={'value': value})
         try:
